@@ -26,6 +26,27 @@ func runPflagParse(raw json.RawMessage) interface{} {
 	fs.SetInterspersed(in.Interspersed)
 	fs.ParseErrorsWhitelist.UnknownFlags = in.Whitelist
 	for _, f := range in.Flags {
+		switch {
+		case f.Mode == 1 && f.Kind == "bool":
+			fs.BoolS(f.Name, f.Short, false, "")
+		case f.Mode == 2 && f.Kind == "bool":
+			fs.BoolN(f.Name, f.Short, false, "")
+		case f.Mode == 1 && f.Kind == "count":
+			fs.CountS(f.Name, f.Short, "")
+		case f.Mode == 2 && f.Kind == "count":
+			fs.CountN(f.Name, f.Short, "")
+		case f.Mode == 1 && f.Kind == "stringSlice":
+			fs.StringSliceS(f.Name, f.Short, nil, "")
+		case f.Mode == 2 && f.Kind == "stringSlice":
+			fs.StringSliceN(f.Name, f.Short, nil, "")
+		case f.Mode == 1:
+			fs.StringS(f.Name, f.Short, "", "")
+		case f.Mode == 2:
+			fs.StringN(f.Name, f.Short, "", "")
+		}
+		if f.Mode != 0 {
+			continue
+		}
 		switch f.Kind {
 		case "bool":
 			fs.BoolP(f.Name, f.Short, false, "")
@@ -101,6 +122,18 @@ func genPflagParse(r *rng, tier string) interface{} {
 		return in
 	}
 	in.Args = genLine(r, one)
+	if r.chance(12) {
+		// a non-POSIX flag set
+		pi := genParseNonPosix(r, one)
+		in.Flags = pi.Tree.Cmds[0].Flags
+		in.Interspersed = pi.Tree.Cmds[0].Interspersed
+		in.Args = pi.Words
+		in.Whitelist = r.chance(20)
+		if r.chance(50) {
+			in.Args = append(in.Args, pick(r, []string{"tail", "-c", "--", "-delim", "-", "-x", "-h", "--help", "-bool-short=false", "-c=", "-c=5"}))
+		}
+		return in
+	}
 	if r.chance(12) {
 		// unknown flags tolerated: an unknown flag takes the next word along unless it looks like a flag
 		in.Whitelist = true
